@@ -10,10 +10,10 @@ TEXT = {
          "partial: chain histories (pipe.rs, txhashset), blocks/coinbase not claimed; model group Z_2^16^2; trusted: rustc->Kani->CBMC->CaDiCaL and the stubs listed in evidence"),
  "C04": ("Bounded proof (Kani/CBMC) that the retarget functions are total, floored, damped/clamped and that the version schedule / graph weight arithmetic follow the rules, for fully symbolic difficulty windows.",
          "partial: pipe::validate_header sequencing, DifficultyIter (LMDB), PoW and header-MMR root not claimed; bounds on window values stated in evidence"),
- "C05": ("Bounded proof (Kani/CBMC) of PoW variant selection and of proof (de)serialisation: bit-exact round trip, in-range nonces, canonical padding, bad edge_bits refused.",
-         "partial in this revision: cycle verification vs oracle (family A) and siphash equivalence (family B) are not yet registered; per-query edge_bits and proof size are concrete"),
- "C07": ("Bounded proof (Kani/CBMC): MMR position arithmetic equals the defining append rule; PMMR construction over VecBackend equals the definition; Merkle proofs are complete and, under an ideal hash, sound against every single corruption.",
-         "bounds: position widths and MMR sizes per obligation in evidence; soundness is modulo hash collision freedom (ideal-hash stub)"),
+ "C05": ("Bounded proof (Kani/CBMC): Cuckatoo cycle verification agrees with an oracle written from the graph definition for every nonce tuple and every assignment of endpoints (proof size 2 quick, 4 thorough); PoW variant selection; proof (de)serialisation bit-exact, in-range, canonical padding.",
+         "partial: the four cuckaroo* verifiers' cycle logic and proof sizes above 4 are not decided; the graph-seeding hash is replaced by an arbitrary function; per-query edge_bits and proof size are concrete"),
+ "C07": ("Bounded proof (Kani/CBMC): MMR position arithmetic equals the defining append rule; PMMR construction (sizes, node hashes, root, validate) over VecBackend equals the definition; a proof exists and verifies for every leaf.",
+         "bounds: position widths and MMR sizes (2-3 leaves quick) per obligation in evidence; the proof-soundness clause (corrupted proofs fail) is only a thorough-tier attempt under an ideal-hash stub and is not part of the claim"),
  "C10": ("Bounded proof (Kani/CBMC) of value round trip, canonical bytes (decode then re-encode reproduces the consumed bytes) and version-independent hashes for the fixed-size consensus objects.",
          "partial: containers, headers, segments and p2p messages not yet encoded"),
  "C11": ("Bounded proof (Kani/CBMC): listed decoders and Segment::validate never panic / over-allocate / spin on any byte string or decoded-shape value of the listed sizes.",
@@ -22,10 +22,10 @@ TEXT = {
          "partial: generic algorithm instantiated with a cheap-Ord element type; aggregate/deaggregate/hydrate_from over hash-ordered types not claimed"),
  "C13": ("Bounded proof (Kani/CBMC) of the stateless height rules: absolute kernel lock heights in blocks, NRD relative-height range, body lock_height.",
          "partial: coinbase maturity, NRD index and every fork/rewind clause need LMDB/file state and are not claimed"),
- "C14": ("Bounded proof (Kani/CBMC) of the pool's admission gate: low-fee and NRD-variant refusals through the real add_to_pool, fee/weight formulas.",
-         "partial: everything after the fee gate and all pool histories are not claimed"),
- "C16": ("Bounded proof (Kani/CBMC): segments produced by from_pmmr validate (also under a merged root); under an ideal hash any single corruption of a root-relevant part fails validation.",
-         "partial: non-prunable MMRs only; segmenter/desegmenter end-to-end not claimed"),
+ "C14": ("Bounded proof (Kani/CBMC) of the arithmetic the pool's fee gate compares (weight, fee, fee shift, shifted fee, accept fee) on real transactions with symbolic fee fields and configuration.",
+         "thin partial claim: TransactionPool::add_to_pool itself did not finish under CBMC even on empty pools (thorough-tier attempts only); pool histories are not claimed"),
+ "C16": ("Bounded proof (Kani/CBMC): a segment exists iff its first leaf is inside the MMR, and what from_pmmr produces validates against the root (also under a merged root).",
+         "partial: non-prunable MMRs of 3 leaves quick; the corruption-is-rejected clause is only a thorough-tier attempt under an ideal-hash stub; segmenter/desegmenter end-to-end not claimed"),
  "C19": ("Bounded proof (Kani/CBMC) of frame-header limits for every 11-byte header and chain type, and typed reads over a generic Read.",
          "partial: Codec under fragmentation, attachments, header batches, handshake not claimed"),
 }
